@@ -77,7 +77,7 @@ def build(entry, ch, acc, max_faults=4, shapes=None, flavor='plain', avoid='~*:^
 
 
 ENVELOPE_FAULTS = ['se-count', 'se-id', 'ge-count', 'ge-id', 'iea-count', 'iea-id', 'gs-date', 'gs-time', 'st-dup', 'gs-dup', 'gs-code',
-                   'se-count-alpha', 'st-id-long', 'se-count', 'st-dup', 'st-many-codes', 'drop-trailer']
+                   'se-count-alpha', 'st-id-long', 'se-count', 'st-dup', 'st-many-codes', 'drop-trailer', 'st-dup-far', 'gs-dup-far']
 
 
 def envelope_fault(doc, ch):
@@ -114,6 +114,20 @@ def _envelope_fault(doc, ch):
                         x.vals[1] = [doc.segs[a_].vals[1][0] + '999999X']
                         break
                 return kind
+        return None
+    elif kind in ('st-dup-far', 'gs-dup-far'):
+        # a control number re-used non-adjacently within its scope (0001 0002 0001)
+        hid, tid, scope, pos = ('ST', 'SE', 'GS', 1) if kind == 'st-dup-far' else ('GS', 'GE', 'ISA', 5)
+        c = idx(hid)
+        for x in range(len(c)):
+            for y in range(x + 2, len(c)):
+                if scope not in [q.id for q in doc.segs[c[x]:c[y]]]:
+                    doc.segs[c[y]].vals[pos] = list(doc.segs[c[x]].vals[pos])
+                    for q in doc.segs[c[y]:]:
+                        if q.id == tid:
+                            q.vals[1] = list(doc.segs[c[x]].vals[pos])
+                            break
+                    return kind
         return None
     elif kind == 'drop-trailer':
         # a trailer missing in the middle of the file (the next header follows an unterminated set / group)
